@@ -137,7 +137,11 @@ class Check:
                 else:
                     validated += len(batch)
         # 2. violations: known classes vs new
-        new = [v for v in self.violations if not v.get("cls")]
+        for v in self.violations:
+            if v.get("advisory") and not v.get("cls"):
+                self.notes.append("advisory lemma counterexample (state not shown reachable, not reported): " + json.dumps({k: v[k] for k in v if k in ("kind", "site", "doms", "offsets", "props", "queue", "enabled", "top", "prop_index", "ran")}, default=str)[:600])
+        self.notes = self.notes[:40]
+        new = [v for v in self.violations if not v.get("cls") and not v.get("advisory")]
         seen_new = {}
         per_kind = {}
         for v in new:
